@@ -119,6 +119,12 @@ def main():
         "not a == b -> a != b, membership in frozenset((..)) -> set literal, else after return removed, drained maps "
         "as loops, conditional-expression statements as if/else, constant frozensets hoisted; the suite passes on it)",
     )
+    ap.add_argument(
+        "--kwargs",
+        action="store_true",
+        help="also run every check on a copy in which positional arguments of calls to the package's own functions are "
+        "passed by keyword (selftest/kwargs.py; the suite passes on it): rules must bind arguments by position and by name",
+    )
     a = ap.parse_args()
     from mutants import MUTANTS
 
@@ -219,6 +225,22 @@ def main():
                     r = subprocess.run([os.path.join(VERIF, "check"), p, "--root", os.path.join(tmp, "r"), "--evidence-dir", os.path.join(tmp, "ev"), "--quiet"], capture_output=True, text=True)
                     if r.returncode != 0:
                         print("MODERNISED-TREE {} exit {} (wanted 0): {}".format(p, r.returncode, "\n".join(l for l in (r.stdout + r.stderr).splitlines() if not l.startswith("KNOWN"))[-400:]))
+                        bad += 1
+        finally:
+            shutil.rmtree(tmp, ignore_errors=True)
+    if a.kwargs:
+        tmp = tempfile.mkdtemp(prefix="cddkw_")
+        try:
+            r = subprocess.run([sys.executable, os.path.join(HERE, "kwargs.py"), a.repo, os.path.join(tmp, "r")], capture_output=True, text=True)
+            if r.returncode != 0 or "SYNTAX" in r.stdout:
+                print("KWARGS-REWRITE failed: {}".format((r.stdout + r.stderr)[-300:]))
+                bad += 1
+            else:
+                os.makedirs(os.path.join(tmp, "ev"))
+                for p in sorted({m["prop"] for m in muts}):
+                    r = subprocess.run([os.path.join(VERIF, "check"), p, "--root", os.path.join(tmp, "r"), "--evidence-dir", os.path.join(tmp, "ev"), "--quiet"], capture_output=True, text=True)
+                    if r.returncode != 0:
+                        print("KWARGS-TREE {} exit {} (wanted 0): {}".format(p, r.returncode, "\n".join(l for l in (r.stdout + r.stderr).splitlines() if not l.startswith("KNOWN"))[-400:]))
                         bad += 1
         finally:
             shutil.rmtree(tmp, ignore_errors=True)
